@@ -476,7 +476,12 @@ def _mutable(v):
 
 def make_dataclass(hint, default):
     n = next(_counter)
-    fld = dataclasses.field(default_factory=(lambda d=default: type(d)(d))) if _mutable(default) else dataclasses.field(default=default)
+    if _mutable(default):
+        fld = dataclasses.field(default_factory=(lambda d=default: type(d)(d)))
+    elif getattr(type(default), "__hash__", None) is None:  # e.g. Path objects: dataclasses refuse unhashable defaults
+        fld = dataclasses.field(default_factory=(lambda d=default: d))
+    else:
+        fld = dataclasses.field(default=default)
     return _register(dataclasses.make_dataclass(f"DC{n}", [("a", hint, fld), ("z", int, dataclasses.field(default=0))]))
 
 
@@ -516,7 +521,7 @@ def build(shape, ts: TS, default=None, mode="yaml", with_cfg=True, dump_header=N
         p.add_argument("--z", type=int, default=0)
         return Built(p, shape, lambda v: {"a": v}, lambda s: [f"--a={s}"], "a")
     if shape == "positional":
-        p.add_argument("a", type=hint, default=default, nargs="?" if True else None)
+        p.add_argument("a", type=hint)  # positionals take no default
         return Built(p, shape, lambda v: {"a": v}, lambda s: None if s.startswith("-") else [s], "a")
     if shape == "group":
         g = p.add_argument_group("G")
